@@ -354,7 +354,7 @@ class ModelBase:
             if len(args) == 1:
                 el = self.iter_item(interp, st, a0, None, None)
                 interp.emit('minmax', node, which=name, arg=a0)
-                out = el.w(deps=d)
+                out = el.w(deps=d, minmax=(name, [a0]))
                 if name == 'min' and (el.pair_width is not None or el.minwidth is not None):
                     out = out.w(minwidth=el.pair_width or el.minwidth, pair_width=None)
                 return out
